@@ -109,7 +109,7 @@ fn gen_case(rng: &mut Rng, kind: Kind, depth: u32, max_extra: usize) -> Case {
         let pats: Vec<Vec<u8>> = (0..npats).map(|_| if kind == Kind::NonPositive { next_unique += 1; pool[next_unique - 1].clone() } else { rng.pick(&pool[..8.min(pool.len())]).clone() }).collect();
         let refs: Vec<usize> = (0..i).filter(|j| !global || core[*j].global).collect();
         let mut g = Gen { rng, npats, fsize: data.len() as i64, scope: vec![], for_of: 0, refs, next_var: 0, slots: 0, max_slots: 58,
-                          budget: 25 + 8 * depth as i32, stream: Stream::Main, zero_of: false };
+                          budget: 25 + 8 * depth as i32, stream: Stream::Main, zero_of: false, iters: 1 };
         let cond = if global { g.gen_bool(1) } else if is_target && kind == Kind::NonPositive {
             let n = g.npats;
             let (s, syn) = if g.rng.chance(1, 2) { ((0..n).collect::<Vec<_>>(), SetSyn::Them) } else {
